@@ -16,6 +16,7 @@ RULE = (
     "normalizer x parameter (both signs, special values 0/2 and +-1e-9 neighbours) x data grids over the valid range incl. "
     "boundaries, NaN, out-of-range values; pipeline cases: field class x normalizer x mean/trend kind x mesh type; "
     "non-trivial = a non-identity normalizer or a non-zero mean/trend is involved"
+    " Also: likelihood samples with NaN / out-of-range entries; fit(skip=...) on the two-parameter normalizer; one instance whose parameters change between calls vs fresh instances; vector-valued mean/trend; the array the user keeps."
 )
 ASSUMPTIONS = [
     "gsverif/oracles/norm.py is an independent transcription of the documented transformation formulas",
